@@ -41,8 +41,19 @@ func (k Keeper) Attest(ctx sdk.Context, oracleAddr sdk.AccAddress, claim types.E
 		}
 	}
 
-	// Add the oracle's vote to this attestation
-	att.Votes = append(att.Votes, oracleAddr.String())
+	// Add the oracle's vote to this attestation, once: an oracle that left and bonded again starts
+	// from a fresh event nonce and may re-submit a claim it already voted for
+	oracleStr := oracleAddr.String()
+	alreadyVoted := false
+	for _, vote := range att.Votes {
+		if vote == oracleStr {
+			alreadyVoted = true
+			break
+		}
+	}
+	if !alreadyVoted {
+		att.Votes = append(att.Votes, oracleStr)
+	}
 	k.SetAttestation(ctx, claim.GetEventNonce(), claim.ClaimHash(), att)
 
 	if !att.Observed && claim.GetEventNonce() == k.GetLastObservedEventNonce(ctx)+1 {
